@@ -561,9 +561,9 @@ Lemma raw_map kvs : raw (SMap kvs) = [TLBrace] ++ entries_tk kvs ++ [TRBrace].
 Proof. reflexivity. Qed.
 Lemma ast_many l : (fix go (l : list st) : list expr := match l with [] => [] | r :: l' => ast r :: go l' end) l = map ast l.
 Proof. induction l as [|x l IH]; [reflexivity|]. cbn [map]. now rewrite <- IH. Qed.
-Lemma ast_mcall a g args : ast (SMCall a g args) = ECall g (Some (ast a)) (map ast args).
+Lemma ast_mcall a g args : ast (SMCall a g args) = call_ast g (Some (ast a)) (map ast args).
 Proof. cbn [ast]. now rewrite ast_many. Qed.
-Lemma ast_call g args : ast (SCall g args) = ECall g None (map ast args).
+Lemma ast_call g args : ast (SCall g args) = call_ast g None (map ast args).
 Proof. cbn [ast]. now rewrite ast_many. Qed.
 Lemma ast_list es : ast (SLst es) = EList (map ast es).
 Proof. cbn [ast]. now rewrite ast_many. Qed.
@@ -731,10 +731,17 @@ Qed.
 Lemma fields_tk_head l R : match fields_tk l ++ TRBrace :: R with TComma :: TRBrace :: _ => False | _ => True end.
 Proof. destruct l as [|[n v] l]; cbn; exact I. Qed.
 
-Lemma mk_call_plain g tgt args rest : no_macro g (match tgt with Some _ => true | None => false end) (length args) = true ->
-  mk_call g tgt args rest = POk (ECall g tgt args) rest.
+Lemma mk_call_plain g tgt args rest : call_ok g tgt args = true ->
+  mk_call g tgt args rest = POk (call_ast g tgt args) rest.
 Proof.
-  unfold no_macro, mk_call, expand_call. destruct (find_expander g _ (length args)); [discriminate|reflexivity].
+  unfold call_ok, call_ast, mk_call. destruct (expand_call g tgt args); [reflexivity|discriminate].
+Qed.
+
+(** A name, receiver style and argument count no macro has: the call node itself. *)
+Lemma call_ast_plain g tgt args : no_macro g (match tgt with Some _ => true | None => false end) (length args) = true ->
+  call_ok g tgt args = true /\ call_ast g tgt args = ECall g tgt args.
+Proof.
+  unfold no_macro, call_ok, call_ast, expand_call. destruct (find_expander g _ (length args)); [discriminate|split; reflexivity].
 Qed.
 
 Definition Good (t : st) : Prop := Par t /\ Kmul t /\ Kadd t /\ Krel t /\ Kpost t.
@@ -829,7 +836,7 @@ Proof.
     apply Ka; [split; [apply msafe_call|exact I]|].
     destruct (args_ok args Pargs R) as [n1 H1].
     exists (S (max n n1)). intros [|f0] Hf; [lia|]. rewrite u_postfix, H1 by lia.
-    rewrite mk_call_plain by (now rewrite map_length). rewrite ast_mcall in HX. apply HX. lia.
+    rewrite mk_call_plain by exact Wm. rewrite ast_mcall in HX. apply HX. lia.
   - (* global call *)
     destruct W as (Wm & Wargs).
     assert (Pargs : Forall Par args).
@@ -840,7 +847,7 @@ Proof.
     destruct (args_ok args Pargs R) as [n1 H1].
     exists (S (S (max n n1))). intros [|[|f0]] Hf; try lia. rewrite u_member, u_primary. unfold ident_forms.
     cbn [msg_prefix length]. rewrite H1 by lia.
-    rewrite mk_call_plain by (now rewrite map_length). rewrite ast_call in HX. apply HX. lia.
+    rewrite mk_call_plain by exact Wm. rewrite ast_call in HX. apply HX. lia.
   - (* list literal *)
     assert (Pes : Forall Par es).
     { induction H as [|r rs Hr _ IH]; [constructor|]. destruct W as [Wr Wrs].
